@@ -3,6 +3,7 @@ package props
 import (
 	"fmt"
 	"go/token"
+	"go/types"
 	"strings"
 
 	"golang.org/x/tools/go/ssa"
@@ -54,11 +55,142 @@ func counterAddrFields(v ssa.Value, fn *ssa.Function) ([]string, bool) {
 	return out, len(out) > 0
 }
 
+// checkImageFresh: every store to Message.prepared stores a byte slice whose backing array was allocated after the previous
+// image was handed out — the chain of appends/slicings that produces it starts at nil, make, a literal, a conversion, bytes.Join or
+// a module helper that returns such a value, never at a load of a field or variable (append(msg.prepared[:0], …) reuses the array
+// that a message waiting in the outgoing queue still points to).
+func checkImageFresh(c *core.Ctx, rule string) {
+	prepared := c.Field("fix", "Message", "prepared")
+	if !c.Anchor("wire image field", prepared != nil, "fix.Message.prepared", token.NoPos) {
+		return
+	}
+	var fresh func(v ssa.Value, depth int) string
+	fresh = func(v ssa.Value, depth int) string {
+		if depth > 12 {
+			return "too deep: " + an.Render(v)
+		}
+		switch x := v.(type) {
+		case *ssa.Const:
+			return ""
+		case *ssa.MakeSlice:
+			return ""
+		case *ssa.Convert:
+			if b, ok := x.X.Type().Underlying().(*types.Basic); ok && b.Info()&types.IsString != 0 {
+				return "" // []byte(string) copies
+			}
+			return fresh(x.X, depth+1)
+		case *ssa.ChangeType:
+			return fresh(x.X, depth+1)
+		case *ssa.Slice:
+			if al, ok := x.X.(*ssa.Alloc); ok && al.Heap {
+				return "" // slice literal
+			}
+			return fresh(x.X, depth+1)
+		case *ssa.Phi:
+			for _, e := range x.Edges {
+				if r := fresh(e, depth+1); r != "" {
+					return r
+				}
+			}
+			return ""
+		case *ssa.Call:
+			if b, ok := x.Call.Value.(*ssa.Builtin); ok && b.Name() == "append" {
+				return fresh(x.Call.Args[0], depth+1)
+			}
+			cal := an.StaticCallee(&x.Call)
+			if cal == nil {
+				return "the result of a dynamic call " + an.Render(v)
+			}
+			if cal.Pkg != nil && cal.Pkg.Pkg.Path() == "bytes" && (cal.Name() == "Join" || cal.Name() == "Repeat" || cal.Name() == "Clone") {
+				return ""
+			}
+			if cal.Pkg != nil && strings.HasPrefix(cal.Pkg.Pkg.Path(), modulePrefix) && len(cal.Blocks) > 0 {
+				bad := ""
+				an.AllInstrs(cal, func(in ssa.Instruction) {
+					if ret, ok := in.(*ssa.Return); ok && len(ret.Results) > 0 && bad == "" {
+						bad = fresh(ret.Results[0], depth+1)
+					}
+				})
+				return bad
+			}
+			return "the result of " + an.Render(v)
+		}
+		return "derived from existing memory: " + an.Render(v)
+	}
+	n := 0
+	for _, fn := range pkgFuncs(c.SSAPkg("fix")) {
+		an.AllInstrs(fn, func(in ssa.Instruction) {
+			st, ok := in.(*ssa.Store)
+			if !ok {
+				return
+			}
+			fa, ok := st.Addr.(*ssa.FieldAddr)
+			if !ok || an.FieldOf(fa) != prepared {
+				return
+			}
+			n++
+			// the value stored; a load of the field itself (msg.prepared = append(msg.prepared, …)) continues the chain of this call's earlier store
+			v := st.Val
+			var why string
+			for i := 0; i < 8; i++ {
+				why = fresh(v, 0)
+				if !strings.HasPrefix(why, "derived from existing memory: ") {
+					break
+				}
+				// a reload of the field within the same block after a store of a fresh value in the same function is the same buffer
+				prev := previousStoreInBlock(st, prepared, v)
+				if prev == nil {
+					break
+				}
+				st, v = prev, prev.Val
+			}
+			c.Check(why == "", rule, fn.Name(), "the wire image is built in fresh memory", in.Pos(), "nil/make/Join/literal-based", "the image buffer is "+why+": bytes already handed to the outgoing queue (or to a retransmission) are overwritten when the message is prepared again")
+		})
+	}
+	c.Check(n > 0, rule, "Message.prepared", "stores found", token.NoPos, fmt.Sprint(n), "no store to Message.prepared found")
+}
+
+// previousStoreInBlock: v is (an append chain on) a load of field f that follows, in the block of st, an earlier store to f; returns that store.
+func previousStoreInBlock(st *ssa.Store, f *types.Var, v ssa.Value) *ssa.Store {
+	// find the base load
+	for {
+		call, ok := v.(*ssa.Call)
+		if !ok {
+			break
+		}
+		if b, ok := call.Call.Value.(*ssa.Builtin); !ok || b.Name() != "append" {
+			return nil
+		}
+		v = call.Call.Args[0]
+	}
+	ld, ok := v.(*ssa.UnOp)
+	if !ok || ld.Op != token.MUL {
+		return nil
+	}
+	fa, ok := ld.X.(*ssa.FieldAddr)
+	if !ok || an.FieldOf(fa) != f || ld.Block() != st.Block() {
+		return nil
+	}
+	var prev *ssa.Store
+	for _, in := range st.Block().Instrs {
+		if in == ssa.Instruction(ld) {
+			return prev
+		}
+		if s2, ok := in.(*ssa.Store); ok {
+			if fa2, ok := s2.Addr.(*ssa.FieldAddr); ok && an.FieldOf(fa2) == f {
+				prev = s2
+			}
+		}
+	}
+	return nil
+}
+
 func runC05(c *core.Ctx, o Options) {
 	c.Explanation = "The premises of a short ordering argument are each decided on the code (for every schedule at once): K1 — in Session.send the call that takes the next outgoing number, the four header stamps and Router.Send all execute with Session.mu held (must-held lockset); " +
 		"K2 — that is the only place in package session that takes an outgoing number or calls Router.Send; retransmission (SendBatch) is the only bypass; K3 — no go statement anywhere on the call chain Session.send → DefaultHandler.Send → send → sendRaw → channel `out`; " +
 		"K4 — the bundled store increments atomically and returns the incremented value; nothing in package session resets or sets the outgoing counter; K5 — MsgSeqNum is the number just taken, Target/SenderCompID come from the session's settings, SendingTime is time.Now() in the session's location formatted with fix.TimeLayout, all on the message that is sent; " +
 		"K6 — the acceptor's Logon handler swaps the peer's sender/target into the settings; K7 — `out` has one producer function and one consumer per serve function; K8 — DefaultHandler.Send/SendBatch hold DefaultHandler.mu across handlers, ToBytes and enqueue. " +
+		"K9 — every Message.Prepare builds the wire image in fresh memory, so bytes waiting in the out channel are never rewritten by a later send of the same object; K10 — the session's timer goroutines test the session context right after every wake-up, so a stopped session takes no further number from a store that a later session continues. " +
 		"Hence numbers are taken under one mutex, enqueued on a FIFO channel before the mutex is released, and written by a single writer: wire order equals numbering order. The refused/unsaved-message case is C19's."
 	fns := libFuncs(c)
 	la := an.AnalyseLocks(fns)
@@ -252,76 +384,38 @@ func runC05(c *core.Ctx, o Options) {
 		}
 		c.Check(ok && nOut == 1, "K4", "Storage.GetNextSeqNum", "atomically increments and returns the incremented counter", gn.Pos(), "int(atomic.AddInt64(&counter, 1))", "GetNextSeqNum is not an atomic increment-and-return of the counter")
 	}
-	// ---- K6 acceptor swap
+	// ---- K9 the bytes put on the out channel are never written again: every Prepare builds its image in fresh memory
+	checkImageFresh(c, "K9")
+	// ---- K10 a stopped session takes no further number: the timer goroutines test the session context after every wake-up
+	checkTimerRoutines(c, s, "K10")
+	// ---- K6 acceptor swap: on every accepting-side path of the Logon handler the installed settings carry the peer's
+	// SenderCompID as TargetCompID and vice versa (symbolic evaluation of the settings object, see settings.go)
 	if lf := s.one(true, "Logon"); lf != nil {
-		var stT, stS *ssa.Store
-		an.AllInstrs(lf, func(in ssa.Instruction) {
-			st, ok := in.(*ssa.Store)
-			if !ok {
-				return
-			}
-			fa, ok := st.Addr.(*ssa.FieldAddr)
-			if !ok || !strings.HasSuffix(an.Render(fa.X), ".LogonSettings") {
-				return
-			}
-			switch an.FieldOf(fa).Name() {
-			case "TargetCompID":
-				stT = st
-			case "SenderCompID":
-				stS = st
-			}
-		})
+		fl := s.settingsFlow(lf)
 		ob := c.Ob("K6", "inbound:Logon", "acceptor mirrors the peer's SenderCompID/TargetCompID into its settings", lf.Pos())
-		if stT == nil || stS == nil {
-			ob.Fail("no swap of SenderCompID/TargetCompID in the Logon handler")
+		if fl.Problem != "" {
+			ob.Unknown("%s", fl.Problem)
 		} else {
-			vT, vS := an.Render(stT.Val), an.Render(stS.Val)
-			lt, okT := stT.Val.(*ssa.UnOp)
-			lsd, okS := stS.Val.(*ssa.UnOp)
-			sideOK := false
-			for _, p := range firstPaths(lf) {
-				if p.Passes(stT) && p.Has("s.side == 0") {
-					sideOK = true
+			nAcc, bad := 0, ""
+			for _, e := range fl.Envs {
+				if e.Side == "initiator" {
+					continue
+				}
+				nAcc++
+				switch {
+				case !mirrored(e.Env):
+					bad = fmt.Sprintf("on an accepting-side path the installed settings have TargetCompID ← %s, SenderCompID ← %s: not the peer's SenderCompID/TargetCompID swapped", e.Env["TargetCompID"], e.Env["SenderCompID"])
+				case e.Early != "":
+					bad = e.Early
 				}
 			}
 			switch {
-			case !strings.HasSuffix(vT, ".LogonSettings.SenderCompID") || !strings.HasSuffix(vS, ".LogonSettings.TargetCompID"):
-				ob.Fail("TargetCompID ← %s, SenderCompID ← %s: not a swap", vT, vS)
-			case !okT || !okS || !an.Dominates(lt, stT) || !an.Dominates(lt, stS) || !an.Dominates(lsd, stT) || !an.Dominates(lsd, stS):
-				ob.Fail("the two values are not both read before either is overwritten")
-			case !sideOK:
-				ob.Fail("the swap is not performed on the accepting side (s.side == sideAcceptor)")
+			case bad != "":
+				ob.Fail("%s", bad)
+			case nAcc == 0:
+				ob.Fail("no accepting-side path installs settings")
 			default:
-				// every send on an acceptor path that has adopted the peer's settings comes after the swap
-				early := ""
-				for _, p := range firstPaths(lf) {
-					if !p.Has("s.side == 0") && !p.Has("s.side != 0") {
-						// the side test was not reached: look for sends after the settings store without it
-					}
-					seenSettings, seenSwap := false, false
-					for _, b := range p.Blocks {
-						for _, in := range b.Instrs {
-							if st, ok := in.(*ssa.Store); ok {
-								if fa, ok := st.Addr.(*ssa.FieldAddr); ok && an.FieldOf(fa).Name() == "LogonSettings" && an.TypeIs(fa.X.Type(), "session", "Session") {
-									seenSettings = true
-								}
-							}
-							if in == ssa.Instruction(stT) {
-								seenSwap = true
-							}
-							if call, ok := in.(*ssa.Call); ok && seenSettings && !seenSwap && !p.Has("s.side != 0") {
-								if cal := an.StaticCallee(&call.Call); cal != nil && (s.isSendPrimitive(cal) || cal.Name() == "RejectMessage") {
-									early = "a message is sent at " + c.RelPos(call.Pos()) + " after the peer's settings were adopted but before sender/target were mirrored: it leaves with the peer's own identifiers"
-								}
-							}
-						}
-					}
-				}
-				if early != "" {
-					ob.Fail("%s", early)
-				} else {
-					ob.Ok("TargetCompID ← received SenderCompID, SenderCompID ← received TargetCompID, on the accepting side, before anything is sent")
-				}
+				ob.Ok("TargetCompID ← received SenderCompID, SenderCompID ← received TargetCompID on %d accepting-side path shape(s), before anything is sent", nAcc)
 			}
 		}
 	}
@@ -402,7 +496,7 @@ func runC05(c *core.Ctx, o Options) {
 		ent := la.Entry[hsend]
 		c.Check(ent.Holds(hmu, "h", an.ModeW), "K8", "DefaultHandler.send", "every caller of send holds DefaultHandler.mu", hsend.Pos(), "entry lockset "+ent.String(), "send is reachable without DefaultHandler.mu (entry lockset "+ent.String()+")")
 	}
-	c.RuleMin = map[string]int{"K1": 6, "K2": 4, "K3": 8, "K4": 3, "K5": 7, "K6": 1, "K7": 3, "K8": 3}
+	c.RuleMin = map[string]int{"K1": 6, "K2": 4, "K3": 8, "K4": 3, "K5": 7, "K6": 1, "K7": 3, "K8": 3, "K9": 2, "K10": 4}
 	c.MinObl = 35
 }
 
